@@ -69,6 +69,33 @@ pub fn make_plan(
     horizon: u64,
     rng: &mut Rng,
 ) -> Plan {
+    make_plan_c(sys, pre, pattern, tua, horizon, rng, false)
+}
+
+/// Largest execution time the next job may have under the task's cost curve, given the execution
+/// times of its predecessors: min over n of c(n) - (sum of the last n-1 jobs).
+pub fn curve_budget(curve: &[u64], history: &[u64]) -> u64 {
+    let mut best = u64::MAX;
+    for n in 1..=curve.len() {
+        if n - 1 > history.len() {
+            break;
+        }
+        let prev: u64 = history[history.len() - (n - 1)..].iter().sum();
+        best = best.min(curve[n - 1].saturating_sub(prev));
+    }
+    best
+}
+
+/// As `make_plan`; with `curves` the jobs of tasks that carry a cost curve respect it.
+pub fn make_plan_c(
+    sys: &System,
+    pre: Preempt,
+    pattern: Pattern,
+    tua: usize,
+    horizon: u64,
+    rng: &mut Rng,
+    curves: bool,
+) -> Plan {
     let jmax = sys.tasks.iter().map(|t| t.arr.max_jitter()).max().unwrap_or(0);
     let t0 = jmax + T0_MARGIN;
     let mut comp_releases = vec![];
@@ -111,7 +138,14 @@ pub fn make_plan(
                     (segs.iter().sum(), segs)
                 }
                 _ => {
-                    let e = if full_cost || rng.chance(1, 2) { task.wcet } else { rng.range(1, task.wcet) };
+                    let cap = match (&task.cost_curve, curves) {
+                        (Some(c), true) => {
+                            let hist: Vec<u64> = tj.iter().map(|j: &JobPlan| j.exec).collect();
+                            curve_budget(c, &hist).clamp(1, task.wcet)
+                        }
+                        _ => task.wcet,
+                    };
+                    let e = if full_cost || rng.chance(1, 2) { cap } else { rng.range(1, cap) };
                     (e, vec![])
                 }
             };
@@ -292,7 +326,34 @@ pub fn validate(
     plan: &Plan,
     sched: &Schedule,
 ) -> Result<Vec<Vec<Option<u64>>>, String> {
+    validate_c(sys, policy, pre, plan, sched, false)
+}
+
+/// As `validate`; with `curves` every run of n consecutive jobs of a task with a cost curve
+/// c(1..m) must execute for at most c(n) in total.
+pub fn validate_c(
+    sys: &System,
+    policy: Policy,
+    pre: Preempt,
+    plan: &Plan,
+    sched: &Schedule,
+    curves: bool,
+) -> Result<Vec<Vec<Option<u64>>>, String> {
     let n = sys.tasks.len();
+    if curves {
+        for (ti, task) in sys.tasks.iter().enumerate() {
+            if let Some(c) = &task.cost_curve {
+                let e: Vec<u64> = plan.jobs[ti].iter().map(|j| j.exec).collect();
+                for len in 1..=c.len() {
+                    for w in e.windows(len) {
+                        if w.iter().sum::<u64>() > c[len - 1] {
+                            return Err(format!("task {}: {} consecutive jobs execute for {:?}, more than the cost curve allows ({})", ti, len, w, c[len - 1]));
+                        }
+                    }
+                }
+            }
+        }
+    }
     // 1. releases are admissible for the arrival models, job parameters are within bounds
     for (ti, task) in sys.tasks.iter().enumerate() {
         let comps = task.arr.components();
